@@ -1870,3 +1870,117 @@ theorem views_run {chk : Nat → Nat → Bool} (ls : List Label) : ∀ (s s' : S
       exact Nat.le_trans ((step_frame hI l hst).views t loc) (ih s1 s' (inv_step chk s s1 l hI hst) h t loc)
 
 end Woodpile.Abt.RA
+
+namespace Woodpile.Abt.RA
+
+/-- Own steps a reader still needs when every load reads the LATEST message (what a machine
+with a single copy of memory does): the SC measure, with `nOf mem` for the current sequence. -/
+def latestMeasure (s : State) (t : Nat) : Nat :=
+  let th := (s.thr t).loc
+  match th.pc with
+  | .sSeq => 4
+  | .sV => if th.sq = nOf s.mem then 3 else 6
+  | .sB => if th.sq = nOf s.mem then 2 else 5
+  | .sSeq2 => if th.sq = nOf s.mem then 1 else 4
+  | _ => 0
+
+theorem latestMeasure_le (s : State) (t : Nat) : latestMeasure s t ≤ 6 := by
+  simp only [latestMeasure]
+  split <;> (try split) <;> omega
+
+theorem latest_step {chk : Nat → Nat → Bool} {s : State} (hI : Inv chk s) (t j : Nat)
+    (hpc : (s.thr t).loc.pc.inSnap = true) :
+    ∃ s', step chk s (.run t (pickLatest t j s)) = some s' ∧ s'.mem = s.mem ∧
+      (((s'.thr t).loc.pc = .retSnap ∧ latestMeasure s t = 1) ∨
+       ((s'.thr t).loc.pc.inSnap = true ∧ latestMeasure s' t + 1 = latestMeasure s t)) := by
+  have hT := hI.t t
+  have hG := hI.g
+  have hpos := hG.hpos
+  obtain ⟨l, o, hnx⟩ := (snapshot_no_lock_aux chk _ hpc).1
+  have hpick : pickLatest t j s = (s.mem l).length - 1 := by simp [pickLatest, hnx]
+  have hwf := hT.wfv l
+  have hne : step chk s (.run t (pickLatest t j s)) ≠ none := by
+    rw [Ne, step_none_iff]
+    intro h
+    rcases h with h | ⟨h, _⟩ | ⟨l', o', h, hbad⟩
+    · rw [hnx] at h; cases h
+    · simp [Local.next, h] at hnx
+    · rw [hnx] at h; injection h with h1 h2; subst h1
+      apply hbad; rw [hpick]; omega
+  cases hst : step chk s (.run t (pickLatest t j s)) with
+  | none => exact absurd hst hne
+  | some s' =>
+    refine ⟨s', rfl, (solo_step hI t _ hpc hst).1, ?_⟩
+    have hI' := inv_step chk s s' _ hI hst
+    have hnp := (hI'.t t).rd
+    have hmem := (solo_step hI t _ hpc hst).1
+    simp only [step] at hst
+    simp only [latestMeasure, hmem]
+    cases hp : (s.thr t).loc.pc <;> simp [hp, Pc.inSnap] at hpc <;> simp only [Local.next, hp] at hst hnx
+    case sSeq =>
+      injection hnx with h1 h2; subst h1
+      cases hm : (s.mem .seq)[pickLatest t j s]? <;> simp only [hm] at hst
+      · simp at hst
+      · split at hst <;> simp at hst
+        subst hst
+        rename_i m hv
+        have := hG.seqval _ m hm
+        right
+        simp [Local.feedLoad, hp, this, Pc.inSnap, nOf, hpick]
+    case sV =>
+      cases hm : (s.mem (.v (odd (s.thr t).loc.sq)))[pickLatest t j s]? <;> simp only [hm] at hst
+      · simp at hst
+      · split at hst <;> simp at hst
+        subst hst
+        right
+        simp [Local.feedLoad, hp, Pc.inSnap]
+        split <;> simp
+    case sB =>
+      cases hm : (s.mem (.b (odd (s.thr t).loc.sq)))[pickLatest t j s]? <;> simp only [hm] at hst
+      · simp at hst
+      · split at hst <;> simp at hst
+        subst hst
+        right
+        simp [Local.feedLoad, hp, Pc.inSnap]
+        split <;> simp
+    case sSeq2 =>
+      injection hnx with h1 h2; subst h1
+      cases hm : (s.mem .seq)[pickLatest t j s]? <;> simp only [hm] at hst
+      · simp at hst
+      · split at hst <;> simp at hst
+        subst hst
+        rename_i m hv
+        have hval := hG.seqval _ m hm
+        simp only [upd_same] at hnp
+        by_cases h1 : (s.thr t).loc.sq = pickLatest t j s
+        · left
+          by_cases h2 : chk (s.thr t).loc.base (s.thr t).loc.bits = true
+          · simp [Local.feedLoad, hp, hval, h1, h2, nOf, hpick]
+          · simp [Local.feedLoad, hp, hval, h1, h2, RInv] at hnp
+        · right
+          have : ¬ (s.thr t).loc.sq = nOf s.mem := by rw [hpick] at h1; simpa [nOf] using h1
+          simp [Local.feedLoad, hp, hval, h1, Pc.inSnap, this]
+          simp [nOf, hpick]
+
+/-- Reading the latest message at every load, the reader returns within 6 own steps - the SC
+bound - from any reachable state. -/
+theorem latest_terminates {chk : Nat → Nat → Bool} (t : Nat) (m : Nat) : ∀ (j : Nat) (s : State), Inv chk s →
+    (s.thr t).loc.pc.inSnap = true → latestMeasure s t = m →
+    ∃ s', solo chk t (pickLatest t) j m s = some s' ∧ (s'.thr t).loc.pc = .retSnap ∧ s'.mem = s.mem := by
+  induction m with
+  | zero =>
+    intro j s _ hpc hm
+    exfalso
+    simp only [latestMeasure] at hm
+    cases hp : (s.thr t).loc.pc <;> simp [hp, Pc.inSnap] at hpc <;> simp [hp] at hm <;> (split at hm <;> omega)
+  | succ m ih =>
+    intro j s hI hpc hm
+    obtain ⟨s1, hs1, hmem, h⟩ := latest_step hI t j hpc
+    rcases h with ⟨hret, h1⟩ | ⟨hin, h1⟩
+    · have : m = 0 := by omega
+      subst this
+      exact ⟨s1, by simp [solo, hs1], hret, hmem⟩
+    · obtain ⟨s', hs', hret, hmem'⟩ := ih (j + 1) s1 (inv_step chk s s1 _ hI hs1) hin (by omega)
+      exact ⟨s', by simp [solo, hs1, hs'], hret, by rw [hmem', hmem]⟩
+
+end Woodpile.Abt.RA
